@@ -447,6 +447,7 @@ type Failure struct {
 	Strat   string `json:"strategy,omitempty"`
 	Fam     string `json:"fam,omitempty"`
 	Cfg     string `json:"cfg,omitempty"`
+	Scope   string `json:"scope,omitempty"`
 }
 
 // Key is the identity of a failing case for the known-findings file.
